@@ -38,7 +38,7 @@ fn gen(seed: u64, idx: u64, _tier: Tier) -> Plan {
         s.log_level = Some(0);
         s.client_stats = if rng.chance(2, 3) { Some("on".into()) } else { None };
         s.stats_limit = Some(*rng.pick(&[2i64, 3, 8, 5_000_000]));
-        s.status_interval = Some(*rng.pick(&[1i64, 2, 3]));
+        s.status_interval = Some(*rng.pick(&[1i64, 2, 3, 600, 600]));
         if rng.chance(1, 2) {
             plan.world.faults.send_err = *rng.pick(&[30u32, 200]);
         }
@@ -196,6 +196,35 @@ fn check(plan: &Plan, out: &RunOut) -> CheckOut {
             for ip in rec.keys() {
                 if !t.contains_key(ip) {
                     co.violate("C17", "stats_not_conserved", "C17|stats_phantom_address".into(), format!("statistics exist for {}, which never sent anything", ip));
+                }
+            }
+            // "exactly once, in its counter or in the overflow count, never both": every event kind
+            // except the byte count is one event. Overflow counts are reset with each published
+            // snapshot, so what earlier epochs turned away is only known from below; without a
+            // reset the equation is exact.
+            const EVENT_KINDS: [usize; 7] = [0, 1, 2, 3, 4, 5, 7];
+            let events: u64 = EVENT_KINDS.iter().map(|&i| tap_total[i]).sum();
+            let counted: u64 = rec.values().map(|c| EVENT_KINDS.iter().map(|&i| c[i]).sum::<u64>()).sum();
+            let overflowed: u64 = out.ctx.snaps.values().map(|s| s.overflows + s.overflows_before_resets).sum();
+            if counted + overflowed > events {
+                co.violate(
+                    "C17",
+                    "stats_not_conserved",
+                    "C17|stats_not_conserved|recorder=per_client|counted_and_overflowed".into(),
+                    format!("{} events happened, but the per-client counters hold {} and the overflow counts at least {}: some event is in both", events, counted, overflowed),
+                );
+            } else if out.ctx.drained_snapshots == 0 && counted + overflowed != events {
+                co.violate(
+                    "C17",
+                    "stats_not_conserved",
+                    "C17|stats_not_conserved|recorder=per_client|neither_counted_nor_overflowed".into(),
+                    format!("{} events happened and no snapshot was published, but the per-client counters hold {} and the overflow counts {}", events, counted, overflowed),
+                );
+            }
+            if overflowed > 0 {
+                co.probe("stats_overflow_counted");
+                if out.ctx.drained_snapshots == 0 {
+                    co.probe("stats_overflow_counted_exact_equation");
                 }
             }
             if may_overflow {
